@@ -8,6 +8,8 @@ import (
 	"strings"
 	"time"
 
+	"github.com/creachadair/jrpc2"
+
 	"verif/harness/peer"
 	"verif/harness/sched"
 	"verif/harness/vchan"
@@ -48,7 +50,8 @@ type c05state struct {
 	Reqs        map[string]c05req
 	Cb          int // 0 none, 1 running, 2 returned
 	CbReleased  bool
-	Armed       bool // the reader's next Recv is the one that fails; it fires within this step
+	Armed       bool   // the reader's next Recv is the one that fails; it fires within this step
+	BatchErr    string // "" | "anyerror" | "fault": the Batch call itself failed before transmitting
 	CloseCalled bool
 	Sends       int               // Send calls made by the client so far (successful or not)
 	Sent        int               // records actually transmitted
@@ -153,6 +156,27 @@ func c05step(s c05state, ev string, f c05faults, tok string) []c05state {
 	switch ev {
 	case "call1", "call2", "call3":
 		issue("r" + ev[4:])
+	case "batch": // one Batch of two calls (r5, r6), answered member by member
+		if n.Reqs["r5"].St == 0 && n.BatchErr == "" {
+			switch {
+			case n.Stopped:
+				n.BatchErr = "anyerror"
+			case !n.trySend(f):
+				n.BatchErr = "fault"
+			default:
+				n.Reqs["r5"] = c05req{St: 1, Pending: true}
+				n.Reqs["r6"] = c05req{St: 1, Pending: true}
+			}
+		}
+	case "reply5", "reply6":
+		return reply("r"+ev[5:], "ok:"+tok)
+	case "cancelb":
+		for _, tag := range []string{"r5", "r6"} {
+			if r := n.Reqs[tag]; r.St == 1 {
+				r.St, r.Out, r.Fresh = 2, "ctx:canceled", true
+				n.Reqs[tag] = r
+			}
+		}
 	case "callc": // a call whose context has already ended when it is issued
 		issue("r4")
 		if r := n.Reqs["r4"]; r.St == 1 {
@@ -326,6 +350,18 @@ func (w *c05world) do(ev string, tok string) {
 		ctx, cancel := context.WithCancel(context.Background())
 		cancel()
 		issue("r4", ctx, cancel)
+	case "batch":
+		if _, dup := w.cancels["b1"]; !dup {
+			ctx, cancel := context.WithCancel(context.Background())
+			w.cancels["b1"] = cancel
+			rig.GoBatch("b1", ctx, []jrpc2.Spec{{Method: "m", Params: []string{"r5"}}, {Method: "note", Notify: true}, {Method: "m", Params: []string{"r6"}}})
+		}
+	case "reply5", "reply6":
+		rig.Reply(fmt.Sprintf(`{"jsonrpc":"2.0","id":%s,"result":%q}`, idOf("r"+ev[5:], 9005), tok))
+	case "cancelb":
+		if cancel := w.cancels["b1"]; cancel != nil {
+			cancel()
+		}
 	case "mal1":
 		rig.Reply(fmt.Sprintf(`{"jsonrpc":"2.0","id":%s,"result":"x","bogus":true}`, idOf("r1", 9003)))
 	case "notify":
@@ -380,6 +416,36 @@ func (w *c05world) learnIDs() {
 	}
 }
 
+// reqInfo returns how request tag ended as seen through the API: for r5/r6 it
+// is taken from the return of the Batch they belong to.
+func (w *c05world) reqInfo(tag string) (info string, n int) {
+	if tag != "r5" && tag != "r6" {
+		return w.rig.Returned(tag)
+	}
+	binfo, bn := w.rig.Returned("b1")
+	if bn == 0 {
+		return "", 0
+	}
+	if strings.HasPrefix(binfo, "batcherr:") {
+		return binfo, bn
+	}
+	parts := strings.Split(binfo, " | ")
+	idx := map[string]int{"r5": 0, "r6": 1}[tag]
+	if len(parts) != 2 || !strings.Contains(parts[idx], "=") {
+		return "malformed-batch-return:" + binfo, bn
+	}
+	g := parts[idx][strings.Index(parts[idx], "=")+1:]
+	switch {
+	case strings.HasPrefix(g, "rsperr:-32097:"):
+		g = "ctx:canceled"
+	case strings.HasPrefix(g, "rsperr:-32096:"):
+		g = "ctx:deadline"
+	case strings.HasPrefix(g, "rsperr:"):
+		g = "jerr:" + strings.TrimPrefix(g, "rsperr:")
+	}
+	return g, bn
+}
+
 func c05outcomeOK(want, got string) bool {
 	if rest, ok := strings.CutPrefix(want, "or-anyerror:"); ok {
 		return got == rest || c05outcomeOK("anyerror", got)
@@ -392,8 +458,25 @@ func c05outcomeOK(want, got string) bool {
 
 // consistent reports whether deterministic state s explains the observation.
 func (w *c05world) consistent(s c05state, transmitted int, onstop []peer.Event, closeRet int) (bool, string) {
+	if s.BatchErr != "" {
+		info, n := w.rig.Returned("b1")
+		want := "batcherr:fault"
+		if n != 1 || !strings.HasPrefix(info, "batcherr:") || (s.BatchErr == "fault" && info != want) {
+			return false, fmt.Sprintf("Batch returned %q x%d, want an error before transmitting (%s)", info, n, s.BatchErr)
+		}
+	}
 	for tag, r := range s.Reqs {
-		info, n := w.rig.Returned(tag)
+		info, n := w.reqInfo(tag)
+		if tag == "r5" || tag == "r6" {
+			other := s.Reqs[map[string]string{"r5": "r6", "r6": "r5"}[tag]]
+			if other.St == 1 || r.St == 1 {
+				// the Batch returns only when all its members have ended
+				if n != 0 {
+					return false, fmt.Sprintf("Batch returned %q although a member has not ended", info)
+				}
+				continue
+			}
+		}
 		switch {
 		case n > 1:
 			return false, fmt.Sprintf("%s returned %d times", tag, n)
@@ -529,7 +612,7 @@ func c05exec(c *vt.Ctx, hist []string, f c05faults, pipeLike bool, ctrl *sched.C
 			}
 		}
 		// teardown: end every context, let the callback go, close, peer closes
-		for _, ev := range []string{"cancel1", "cancel2", "cancel3", "cbrel", "close"} {
+		for _, ev := range []string{"cancel1", "cancel2", "cancel3", "cancelb", "cbrel", "close"} {
 			if !ok {
 				break
 			}
@@ -555,7 +638,7 @@ func c05exec(c *vt.Ctx, hist []string, f c05faults, pipeLike bool, ctrl *sched.C
 			}
 			s := states[0]
 			for tag, r := range s.Reqs {
-				info, n := rig.Returned(tag)
+				info, n := w.reqInfo(tag)
 				if n != 1 {
 					c.Failf("%s returned %d times by the end", tag, n)
 					continue
@@ -602,10 +685,10 @@ func c05exec(c *vt.Ctx, hist []string, f c05faults, pipeLike bool, ctrl *sched.C
 }
 
 func c05alphabet() []string {
-	return []string{"call2", "call3", "callc", "mal1", "notify", "reply1", "reply2", "err1", "cancel1", "cancel2", "tmo", "close", "eof", "fail", "malformed", "cbstart", "cbrel"}
+	return []string{"call2", "call3", "callc", "batch", "reply5", "reply6", "cancelb", "mal1", "notify", "reply1", "reply2", "err1", "cancel1", "cancel2", "tmo", "close", "eof", "fail", "malformed", "cbstart", "cbrel"}
 }
 
-var c05races = []string{"callc||close", "callc||reply1", "mal1||cancel1", "reply1||cancel1", "reply1||close", "cancel1||close", "eof||close", "reply1||eof", "call3||close", "reply2||tmo", "cbrel||close", "reply1||fail", "notify||close", "malformed||reply1"}
+var c05races = []string{"reply5||reply6", "reply5||cancelb", "batch||close", "callc||close", "callc||reply1", "mal1||cancel1", "reply1||cancel1", "reply1||close", "cancel1||close", "eof||close", "reply1||eof", "call3||close", "reply2||tmo", "cbrel||close", "reply1||fail", "notify||close", "malformed||reply1"}
 
 func c05nontrivial(h []string) bool {
 	ends := 0
@@ -624,7 +707,7 @@ func init() {
 	vt.Register(&vt.Check{
 		Prop:  "C05",
 		Level: "fault_enumeration",
-		Rule: "histories 'call1' + up to 3 (4 in thorough) events over {call2 (deadline), call3, a call issued with an already-ended context, notify, malformed member bearing a pending id, reply1, reply2, error reply, cancel1, cancel2, deadline passes, Close, peer EOF, transport failure, malformed record, " +
+		Rule: "histories 'call1' + up to 3 (4 in thorough) events over {call2 (deadline), call3, a call issued with an already-ended context, a Batch of two calls and a notification answered member by member or cancelled, notify, malformed member bearing a pending id, reply1, reply2, error reply, cancel1, cancel2, deadline passes, Close, peer EOF, transport failure, malformed record, " +
 			"server callback with stubborn handler, its release} and racing pairs (reply||cancel, reply||Close, cancel||Close, EOF||Close, ...), settle + state-set reference model after every event; " +
 			"fault enumeration: for every history of length <= 3 the k-th Send and the k-th Recv of the client's channel fail, for every k up to the number the fault-free run performed; channels whose Close does / does not unblock Recv; " +
 			"delay-bounded schedules on the racing histories. distinct_nontrivial = distinct (history, fault, flavour, delay set) containing at least two ending events",
